@@ -212,6 +212,14 @@ def main():
         if j["rc"] == "timeout":
             inconclusive.append("%s shard %d: driver timeout after %ds" % (j["test"], j["shard"], j["timeout"]))
             continue
+        if "WARNING: DATA RACE" in (j.get("output") or ""):
+            # the race detector reports outside the property runner: keep its report as the replay artefact
+            rp = os.path.join(replay_dir, "%s-%d-%s.race.log" % (tier, seed, "%s-%d" % (j["test"], j["shard"])))
+            with open(rp, "w") as f:
+                f.write(j["output"])
+            i = j["output"].find("WARNING: DATA RACE")
+            violations.append((j["test"], rp, "race detector: " + j["output"][i:i + 1500]))
+            continue
         if j["rc"] != 0:
             failed_here = st and any(ts.get("failed") for ts in st["tests"].values())
             if failed_here:
